@@ -73,9 +73,10 @@ impl CoordIndex {
             });
         });
 
-        index.max_matrix_index = index.direct_index.len().max(1) - 1;
+        index.max_matrix_index = index.direct_index.values().max().copied().unwrap_or(0);
 
-        let start_offset = index.direct_index.len() * index.direct_index.len();
+        // NOTE index is created before validation, so it should not overflow on any location index
+        let start_offset = (index.max_matrix_index + 1).saturating_pow(2);
         // NOTE promote custom locations to the index to use usize outside
         index.custom_locations.iter().enumerate().for_each(|(offset, location)| {
             debug_assert!(matches!(location, Location::Custom { .. }));
